@@ -21,6 +21,8 @@ import (
 	"fmt"
 	"io"
 	"math"
+	"os"
+	"path/filepath"
 	"runtime"
 	"sort"
 	"testing"
@@ -102,10 +104,10 @@ func liveViews(n int) []g12util.IDView {
 	// effective alphabet size per kept character / byte, and the offset of the
 	// constant part, per family
 	fam := []struct {
-		name    string
-		base    float64
-		offset  float64 // characters that carry no entropy
-		lo, hi  int
+		name   string
+		base   float64
+		offset float64 // characters that carry no entropy
+		lo, hi int
 	}{
 		{"suffix", 58, 0, 3, 9},
 		{"prefix", 58, 8.4, 11, 18},
@@ -176,7 +178,9 @@ func partHostileRoles(t testing.TB, r *vf.Run) (table []hostileID) {
 		}
 		// (2) the role function on the full id strings
 		var sab, sba bool
-		if pk, pd := vf.Try(func() { sab, sba = bwebrtc.VerifIsOfferer(a.String(), b.String()), bwebrtc.VerifIsOfferer(b.String(), a.String()) }); pk {
+		if pk, pd := vf.Try(func() {
+			sab, sba = bwebrtc.VerifIsOfferer(a.String(), b.String()), bwebrtc.VerifIsOfferer(b.String(), a.String())
+		}); pk {
 			r.Violation("isOfferer/panic", "panicked: "+pd, wit)
 			return
 		}
@@ -199,12 +203,29 @@ func partHostileRoles(t testing.TB, r *vf.Run) (table []hostileID) {
 		}
 	}
 
-	// live birthday search over a seeded key stream
-	n := r.N(1<<16, 1<<21)
+	// live birthday search over a seeded key stream. The search runs in a helper
+	// process built without the race detector (key grinding is ~50x slower under
+	// it); if no toolchain is available it runs in-process over fewer keys.
+	n := r.N(1<<18, 1<<23)
 	tag := fmt.Sprintf("c26live %016x", r.Rand("c26/live-grind").Uint64())
+	per := r.N(12, 1<<20)
 	views := liveViews(n)
 	r.Begin(fmt.Sprintf("live birthday search: %d keys of stream %q, %d views", n, tag, len(views)))
-	found, err := g12util.Grind(tag, n, views, runtime.NumCPU(), r.N(12, 1<<20))
+	var found map[string][]g12util.GrindPair
+	var err error
+	if hd, e := filepath.Abs(filepath.Join("..", "..")); e != nil {
+		err = e
+	} else if _, e := os.Stat(filepath.Join(hd, "g12util", "grindcmd", "main.go")); e != nil {
+		err = e
+	} else {
+		found, err = g12util.GrindExternal(hd, t.TempDir(), tag, n, views, per)
+	}
+	if err != nil {
+		r.Extra("live_grind_fallback", "helper process unavailable ("+err.Error()+"); in-process search over fewer keys")
+		n = r.N(1<<13, 1<<16)
+		views = liveViews(n)
+		found, err = g12util.Grind(tag, n, views, runtime.NumCPU(), per)
+	}
 	if err != nil {
 		r.Inconclusive("live birthday search failed: " + err.Error())
 		return table
